@@ -130,7 +130,13 @@ class _Worker(object):
             self.kill()
             self.start()
             return ("died", rc)
-        return ("ok", json.loads(line))
+        rep = json.loads(line)
+        if isinstance(rep, dict) and rep.get("monitor_errors"):
+            MONITOR_ERRORS.extend(rep["monitor_errors"][:5])
+        return ("ok", rep)
+
+
+MONITOR_ERRORS = []  # faults of the monitors themselves, reported by workers: the run is inconclusive
 
 
 def run_cases(module, fn, args, timeout=120, jobs=None, hashseed="0", extra_env=None,
@@ -304,6 +310,9 @@ class Ctx(object):
             print("%s: %d violation(s), %d distinct mechanism(s)" % (self.pid, len(self.violations), len(seen)))
             return 1
         reasons = []
+        if MONITOR_ERRORS:
+            print("monitor fault (harness error, not a verdict):\n" + MONITOR_ERRORS[0][-1200:])
+            reasons.append("%d monitor hook(s) raised: the oracle did not see those executions" % len(MONITOR_ERRORS))
         if self.evaluations < min_evals:
             reasons.append("only %d evaluations (< %d)" % (self.evaluations, min_evals))
         for key in require:
